@@ -856,7 +856,9 @@ theorem runLowLatency_props (F : Flags) (G : DGuards F) :
           | ok pl' =>
             simp only [G.hintDisappeared, Bool.true_and]
             split
-            · exact ⟨trivial, by simp, by simp, by simp, by simp, by simp, by simp, by simp, by simp [DLEnd.isEnded]⟩
+            · split
+              · exact ⟨trivial, by simp, by simp, by simp, by simp, by simp, by simp, by simp, by simp [DLEnd.isEnded]⟩
+              · exact ⟨trivial, by simp, by simp, by simp, by simp, by simp, by simp, by simp, by simp [DLEnd.isEnded]⟩
             · rename_i hns
               simp only [List.length_cons]
               refine (ih pl' ?_).step _
